@@ -1815,8 +1815,8 @@ impl RdfExpressionPredicate {
             BinaryFilterOp::And => Some(Value::Bool(left.as_bool()? && right.as_bool()?)),
             BinaryFilterOp::Or => Some(Value::Bool(left.as_bool()? || right.as_bool()?)),
             BinaryFilterOp::Xor => Some(Value::Bool(left.as_bool()? != right.as_bool()?)),
-            BinaryFilterOp::Eq => Some(Value::Bool(left == right)),
-            BinaryFilterOp::Ne => Some(Value::Bool(left != right)),
+            BinaryFilterOp::Eq => Some(Value::Bool(rdf_values_equal(left, right))),
+            BinaryFilterOp::Ne => Some(Value::Bool(!rdf_values_equal(left, right))),
             BinaryFilterOp::Lt => compare_values(left, right, |o| o.is_lt()),
             BinaryFilterOp::Le => compare_values(left, right, |o| o.is_le()),
             BinaryFilterOp::Gt => compare_values(left, right, |o| o.is_gt()),
@@ -2535,6 +2535,19 @@ fn value_to_string(value: &Value) -> String {
             let parts: Vec<String> = v.iter().map(|f| f.to_string()).collect();
             format!("vector([{}])", parts.join(", "))
         }
+    }
+}
+
+/// Equality for FILTER `=` / `!=`. RDF bindings are lexical strings, so a numeric constant
+/// (`?age = 30`) equals a binding whose lexical form denotes the same number.
+fn rdf_values_equal(left: &Value, right: &Value) -> bool {
+    match (left, right) {
+        (Value::String(_), Value::Int64(_) | Value::Float64(_))
+        | (Value::Int64(_) | Value::Float64(_), Value::String(_)) => matches!(
+            compare_values(left, right, |o| o.is_eq()),
+            Some(Value::Bool(true))
+        ),
+        _ => left == right,
     }
 }
 
